@@ -109,6 +109,45 @@ REQUIRED_WITNESS = {"si-True", "si-False", "instr-typeguard", "instr-beartype", 
 BUDGET_S = {"quick": 150, "thorough": 900}
 
 
+def preflight(tier):
+    """Second engine (thorough tier only, informational): CrossHair on should_instrument."""
+    if tier != "thorough":
+        return []
+    import subprocess
+    import tempfile
+    import textwrap
+    exe = os.path.join(os.path.dirname(sys.executable), "crosshair")
+    if not os.path.exists(exe):
+        return ["CrossHair not installed: second-engine cross-check skipped"]
+    from checks import common
+    src = textwrap.dedent(f'''
+        import sys
+        sys.path.insert(0, {common.REPO!r})
+        from jaxtyping._import_hook import _JaxtypingFinder
+
+        def instrumented(hook: str, module: str) -> bool:
+            """
+            pre: len(hook) <= 4 and len(module) <= 6
+            post: __return__ == (module == hook or module.startswith(hook + "."))
+            """
+            return _JaxtypingFinder([hook], None, None).should_instrument(module)
+    ''')
+    d = tempfile.mkdtemp(prefix="verif_c11_ch_")
+    try:
+        path = os.path.join(d, "ch_should_instrument.py")
+        open(path, "w").write(src)
+        try:
+            r = subprocess.run([exe, "check", "--report_all", "--per_condition_timeout", "30", path],
+                               capture_output=True, text=True, timeout=120)
+            out = (r.stdout + r.stderr).strip().splitlines()
+            verdict = out[-1][-160:] if out else "(no output)"
+        except Exception as e:  # noqa
+            verdict = "CrossHair run failed: " + repr(e)
+    finally:
+        shutil.rmtree(d, ignore_errors=True)
+    return ["CrossHair (second engine) on should_instrument, |hook|<=4, |module|<=6: " + verdict]
+
+
 def purge():
     for m in list(sys.modules):
         if m.split(".")[0] in ("vfoo", "vfoobar", "vfo", "vfoo_x", "vbar"):
